@@ -748,3 +748,52 @@ Theorem native_unknown : forall F P re fuel h s,
   find_native h all_natives = None ->
   call_native_fuel F P re (S fuel) h s = NErr (EProcedureNotFound h) s.
 Proof. intros F P re fuel h s Hf. cbn [call_native_fuel]. rewrite Hf. reflexivity. Qed.
+
+(* ------------------------------------------------------------------ *)
+(* C17: clear, repeated runs                                           *)
+(* ------------------------------------------------------------------ *)
+
+(* everything of the VM state that a later run can read, as it is in a new Vm: no values below the stack height
+   (reads at or beyond the height yield nil by C14), slot 0 nil, no frames, no globals, no objects, no open upvalue *)
+Definition cleared (s : state) : Prop :=
+  vcount (st_stack s) = 0 /\ nth 0 (vdata (st_stack s)) VNil = VNil /\
+  st_calls s = [] /\ st_globals s = [] /\ st_heap s = [] /\ st_open s = None.
+
+Theorem clear_is_fresh : forall s,
+  cleared (clear_state s) /\ cleared fresh_state /\
+  length (vdata (st_stack (clear_state s))) = length (vdata (st_stack s)).
+Proof.
+  intros s. unfold cleared, clear_state, fresh_state. cbn [st_stack st_calls st_globals st_heap st_open vs_step fst vcount vdata].
+  repeat split; try reflexivity.
+  - destruct (vdata (st_stack s)); reflexivity.
+  - apply upd_length.
+Qed.
+
+(* `run` installs its own budget: what was left of an earlier budget does not matter *)
+Theorem run_resets_budget : forall F bld N P s r,
+  length (st_calls s) < call_stack_size ->
+  run F bld N P (set_rem s r) = run F bld N P s.
+Proof.
+  intros F bld N P s r H. unfold run, run_gen, push_frame. cbn [st_calls set_rem].
+  apply Nat.leb_gt in H. rewrite H. reflexivity.
+Qed.
+
+(* a run that ends (Ok or error) leaves no call frame behind (d89012c; the pinned tree left the entry frame and
+   the 257th run on one Vm failed with CallStackOverflow, A-18) *)
+Theorem run_leaves_no_frames : forall F bld N P s,
+  length (st_calls s) < call_stack_size ->
+  (forall a, fst (run F bld N P s) <> OAbort a) ->
+  st_calls (snd (run F bld N P s)) = [].
+Proof.
+  intros F bld N P s H Hna. unfold run, run_gen, push_frame in *. apply Nat.leb_gt in H. rewrite H in *.
+  unfold finish in *.
+  destruct (outcome_of P _) as [o s'] eqn:E. destruct o; cbn [fst snd] in *; try reflexivity.
+  exfalso. eapply Hna. reflexivity.
+Qed.
+
+(* hence any number of completed runs on one Vm never exhausts the call stack at entry *)
+Corollary next_run_can_start : forall F bld N P s,
+  length (st_calls s) < call_stack_size ->
+  (forall a, fst (run F bld N P s) <> OAbort a) ->
+  length (st_calls (snd (run F bld N P s))) < call_stack_size.
+Proof. intros. rewrite run_leaves_no_frames by assumption. cbn. unfold call_stack_size. lia. Qed.
